@@ -177,7 +177,7 @@ func judge(set flow.Set, needs []need, other others) (bad string, undecided stri
 				}
 			}
 			for _, l := range ls {
-				if strings.HasPrefix(l, flow.HelperPrefix) || has(n.must, l) || has(n.allow, l) {
+				if strings.HasPrefix(l, flow.HelperPrefix) || has(n.must, l) || has(n.allow, l) || copyLabel(l) {
 					continue
 				}
 				return fmt.Sprintf("%s reaches the sink on a path through %s, which the composition does not allow (path labels: {%s})", n.what, short(l), shortAll(ls)), ""
@@ -200,6 +200,13 @@ func trim(s string, n int) string {
 		return s[:n] + "…"
 	}
 	return s
+}
+
+// copyLabel: calls that return the bytes they are given, unchanged and in order
+// (a copy, or the concatenation of their arguments): never a transformation of
+// the data a composition rule has to name.
+func copyLabel(l string) bool {
+	return l == "bytes.Clone" || l == "strings.Clone" || strings.HasPrefix(l, "slices.Clone[") || strings.HasPrefix(l, "slices.Concat[")
 }
 
 // verdict records one obligation from a judge result.
